@@ -396,3 +396,144 @@ def param_byte_sweep(blob: bytes, both_layouts=False) -> t.Iterator[bytes]:
                     yield nb.pack(blob_in_envelope=False)
             except Exception:  # noqa: BLE001
                 continue
+
+
+def valid_blob_with_cek(hid=4, pos=(361, 17, 13), data=PLAIN, seed=1):
+    """valid_blob(symbolic=False) plus the content-encryption key and nonce the library drew for it (observed at the
+    module attribute _client.cek_generate; (blob, None, None) when the library no longer draws them there)."""
+    import dpapi_ng._client as C
+
+    seen = []
+    real = C.cek_generate
+
+    def spy(*a, **kw):
+        r = real(*a, **kw)
+        seen.append(r)
+        return r
+
+    C.cek_generate = spy
+    try:
+        blob = valid_blob(hid=hid, pos=pos, data=data, symbolic=False, seed=seed)
+    finally:
+        C.cek_generate = real
+    if len(seen) == 1 and isinstance(seen[0], tuple) and len(seen[0]) == 2:
+        return blob, bytes(seen[0][0]), bytes(seen[0][1])
+    return blob, None, None
+
+
+def key_aware_forgeries(blob: bytes, cek: bytes, iv: bytes, forged: bytes) -> t.Iterator[t.Tuple[str, bytes]]:
+    """Multi-site alterations only someone holding the CEK (or 2^(8t) attempts) can make: another plaintext encrypted under
+    the same CEK and nonce, the GCM tag cut to t octets, and the ICV length in the parameters set to t (or left at 16, or
+    omitted). A conforming reader verifies a full 16-octet tag whatever the parameters say, so every one of them must fail."""
+    import dataclasses
+
+    from cryptography.hazmat.primitives.ciphers.aead import AESGCM
+
+    from dpapi_ng._asn1 import ASN1Writer
+    from dpapi_ng._blob import DPAPINGBlob
+
+    b = DPAPINGBlob.unpack(blob)
+    full = AESGCM(cek).encrypt(iv, forged, None)
+    ct, tag = full[:-16], full[-16:]
+
+    def params(icv):
+        w = ASN1Writer()
+        with w.push_sequence() as s:
+            s.write_octet_string(iv)
+            if icv is not None:
+                s.write_integer(icv)
+        return w.get_data()
+
+    for t_len in (0, 1, 4, 8, 12, 13, 14, 15):
+        for icv in (t_len, 16, None):
+            for trailing in (False, True):
+                try:
+                    nb = dataclasses.replace(b, enc_content=ct + tag[:t_len], enc_content_parameters=params(icv))
+                    yield f"tag cut to {t_len}, ICVlen {icv}, {'trailing' if trailing else 'in-envelope'}", nb.pack(blob_in_envelope=not trailing)
+                except Exception:  # noqa: BLE001
+                    continue
+
+
+def library_registry_words() -> t.Tuple[t.List[str], t.List[str]]:
+    """(dotted OIDs, identifier-like names) the library itself knows: the values and member names of every Enum and every
+    module-level *_OID string constant under dpapi_ng. Crossing them reaches the branches a parser takes for each
+    registered-but-unusual value."""
+    import enum
+    import importlib
+    import pkgutil
+    import re
+
+    import dpapi_ng
+
+    oids, names = set(), set()
+    for mi in pkgutil.walk_packages(dpapi_ng.__path__, "dpapi_ng."):
+        try:
+            mod = importlib.import_module(mi.name)
+        except Exception:  # noqa: BLE001
+            continue
+        for obj in list(vars(mod).values()):
+            members = []
+            if isinstance(obj, type) and issubclass(obj, enum.Enum):
+                members = [(m.name, m.value) for m in obj]
+            elif isinstance(obj, type):
+                members = [(k, v) for k, v in vars(obj).items() if isinstance(v, str)]
+            for k, v in members:
+                if isinstance(v, str) and re.fullmatch(r"[0-2](\.\d+)+", v):
+                    oids.add(v)
+                    names.add(k)
+    return sorted(oids), sorted(names)
+
+
+class _RawDescriptor:
+    def __init__(self, raw: bytes):
+        self.raw = raw
+
+    def pack(self) -> bytes:
+        return self.raw
+
+
+def protection_descriptor_edits(blob: bytes) -> t.Iterator[bytes]:
+    """the protection descriptor rebuilt (well-formed DER, consistent lengths) with every (OID, type name) pair over the OIDs
+    and names the library knows plus near misses, and with the value / nesting varied"""
+    import dataclasses
+
+    from dpapi_ng._asn1 import ASN1Writer
+    from dpapi_ng._blob import DPAPINGBlob
+
+    b = DPAPINGBlob.unpack(blob)
+    oids, names = library_registry_words()
+    oids = oids + ["1.3.6.1.4.1.311.74.1.0", "1.3.6.1.4.1.311.74.1.3", "1.3.6.1.4.1.311.74.1.1.1", "1.3.6.1.4.1.311.74.2.1", "0.0", "2.999.1"]
+    names = names + [n.lower() for n in names[:6]] + ["", "SID ", "SIDS", "﻿SID", "sid", "Sid"]
+    value = getattr(b.protection_descriptor, "value", "S-1-5-18")
+
+    def build(oid, name, val, extra_pair=False, empty=False):
+        w = ASN1Writer()
+        with w.push_sequence() as s0:
+            s0.write_object_identifier(oid)
+            with s0.push_sequence() as s1:
+                with s1.push_sequence() as s2:
+                    if not empty:
+                        with s2.push_sequence() as s3:
+                            s3.write_utf8_string(name)
+                            s3.write_utf8_string(val)
+                    if extra_pair:
+                        with s2.push_sequence() as s3:
+                            s3.write_utf8_string("SID")
+                            s3.write_utf8_string("S-1-1-0")
+        return w.get_data()
+
+    def tryb(*a, **kw):
+        try:
+            return [build(*a, **kw)]
+        except Exception:  # noqa: BLE001  (the library's own writer refuses this OID / string)
+            return []
+
+    raws = [r for o in oids for n in names for r in tryb(o, n, value)]
+    sid_oid = "1.3.6.1.4.1.311.74.1.1"
+    raws += [r for v in ("", "S-1-5", "S-1-5-", "s-1-5-18", "S-1-5-18-", "S-1-5-18\x00", "S-1-" + "9" * 40 + "-1", "S-1-5" + "-1" * 300, "O:SYG:SY") for r in tryb(sid_oid, "SID", v)]
+    raws += tryb(sid_oid, "SID", value, extra_pair=True) + tryb(sid_oid, "SID", value, empty=True)
+    for raw in raws:
+        try:
+            yield dataclasses.replace(b, protection_descriptor=_RawDescriptor(raw)).pack()
+        except Exception:  # noqa: BLE001
+            continue
